@@ -120,5 +120,5 @@ def borrow(ctx, other, what, select=None, n=30, seed_salt=7):
         res.append(("%s (%s case): %s" % (what, other, d),
                     {"case_line": ln, "run_with": "./check %s --replay <this file>" % other}))
         break
-    ctx.setdefault("xcheck", {})["borrowed_%s_cases" % other] = len(pick)
+    ctx.setdefault("xcheck", {})["borrowed_%s_cases" % other] = ctx.get("xcheck", {}).get("borrowed_%s_cases" % other, 0) + len(pick)
     return res
